@@ -255,6 +255,14 @@ def ite(c, a, b):
         return a if c else b
     if a is b:
         return a
+    if isinstance(a, OptVal):
+        a = a.value
+    if isinstance(b, OptVal):
+        b = b.value
+    if isinstance(a, Cell):
+        a = a.value
+    if isinstance(b, Cell):
+        b = b.value
     if isinstance(a, SymRow) and isinstance(b, SymRow):
         if set(a.fields) != set(b.fields):
             raise Unsupported("ite over rows with different fields")
